@@ -564,6 +564,30 @@ def gen_plan(repo="/repo"):
             def is_last(s):
                 return isinstance(s, ast.If) and "blocks.append" in ast.unparse(s)
             stmts, after = _slice_stmts(fn, is_first, is_last)
+            # the statements before the plan: the defaults of the arguments.  `nsamps=None` means "to the end of the data":
+            # translated into <defname>_nsamps; the progress-bar label is irrelevant; anything else is refused
+            i0 = next(i for i, s_ in enumerate(fn.body) if is_first(s_))
+            pre = [s_ for s_ in fn.body[:i0] if not (isinstance(s_, ast.Expr) and isinstance(s_.value, ast.Constant) and isinstance(s_.value.value, str))]
+            a_ = fn.args
+            dflt = dict(zip([x.arg for x in a_.args][len(a_.args) - len(a_.defaults):], a_.defaults))
+            if "nsamps" not in dflt or ast.unparse(dflt["nsamps"]) != "None" or ast.unparse(dflt.get("start", ast.Constant(1))) != "0" \
+                    or ast.unparse(dflt.get("skipback", ast.Constant(1))) != "0":
+                raise Unsupported(f"{cls}.read_plan: defaults of start/nsamps/skipback changed: " + ", ".join(f"{k}={ast.unparse(v)}" for k, v in dflt.items()))
+            ns_default = None
+            for s_ in pre:
+                if isinstance(s_, ast.If) and ast.unparse(s_.test) == "nsamps is None" and not s_.orelse and len(s_.body) == 1 \
+                        and isinstance(s_.body[0], ast.Assign) and ast.unparse(s_.body[0].targets[0]) == "nsamps" and ns_default is None:
+                    ns_default = expr(s_.body[0].value, Ctx([], attr_map=attr))
+                elif isinstance(s_, ast.If) and ast.unparse(s_.test) == "description is None" and not s_.orelse \
+                        and _assigned_simple(s_.body) == ["description"]:
+                    continue
+                else:
+                    raise Unsupported(f"{cls}.read_plan: statement before the plan not recognised: " + ast.unparse(s_)[:80])
+            if ns_default is None:
+                raise Unsupported(f"{cls}.read_plan: no `if nsamps is None: nsamps = ...`")
+            ns_params = [q for q in ("start", "hdr_nsamples") if re.search(r"\b" + q + r"\b", ns_default)]
+            if re.sub(r"\b(start|hdr_nsamples)\b|[-+() 0-9]", "", ns_default):
+                raise Unsupported(f"{cls}.read_plan: default nsamps uses something other than start and header.nsamples: " + ns_default)
             cx = Ctx([], attr_map=attr)
             sl = StraightLine(cx, skip_targets=("allocator", "read_buffer", "unpack_buffer", "data"),
                               capture_calls={"self._file.seek": "seek0"})
@@ -583,6 +607,9 @@ def gen_plan(repo="/repo"):
             ret = "option (Z * Z * Z * list (Z * Z * Z))" if has_seek else "option (Z * Z * list (Z * Z * Z))"
             out.append(f"(* from {cls}.read_plan: effective gulp, skipback, initial seek offset (bytes), blocks (ii, elements, skip elements) *)")
             out.append(f"Definition {defname} " + " ".join(f"({p} : Z)" for p in params) + f" : {ret} :=\n{body}.\n")
+            out.append(f"(* from {cls}.read_plan: the nsamps argument; None (the default) is `if nsamps is None: nsamps = ...` *)")
+            out.append(f"Definition {defname}_nsamps (start : Z) (nsamps : option Z) (hdr_nsamples : Z) : Z :=\n"
+                       f"  match nsamps with Some nsamps => nsamps | None => {ns_default} end.\n")
             # the loop header must iterate over `blocks` unpacking (ii, block, skip)
             loop = next((s for s in after if isinstance(s, ast.For)), None)
             if loop is None or "blocks" not in ast.unparse(loop.iter) or ast.unparse(loop.target) != "(ii, block, skip)":
@@ -998,19 +1025,45 @@ def gen_transform_sites(repo="/repo"):
         fn = method("extract_chans")
         plan_site(fn, "0", ("(nsamps_r, _, data)",))
         txt = ast.unparse(fn)
-        for need in ("data_2d = data.reshape(nsamps_r, self.header.nchans)", "out_file.cwrite(data_2d[:, batch_chans[ifile]])"):
+        for need in ("data_2d = data.reshape(nsamps_r, self.header.nchans)", "out_file.cwrite(data_2d[:, batch_chans[ifile]])",
+                     # batching of the output files (the theorems of Proofs/C07_batches.v are about exactly this loop structure)
+                     "nchans_extract = len(chans)", "filenames = [f'{outfile_base}_chan{chan:04d}.tim' for chan in chans]",
+                     "for batch_start in range(0, nchans_extract, batch_size):", "batch_end = min(batch_start + batch_size, nchans_extract)",
+                     "batch_chans = chans[batch_start:batch_end]", "batch_files = filenames[batch_start:batch_end]",
+                     "for chan, filename in zip(batch_chans, batch_files, strict=True)]", "for ifile, out_file in enumerate(out_files):",
+                     "return filenames"):
             if need not in txt:
                 raise Unsupported("extract_chans: expected line not found: " + need)
+        out.append("(* the output files are opened in batches: for batch_start in range(0, n, batch_size): batch_end = min(batch_start + batch_size, n);")
+        out.append("   files batch_start .. batch_end - 1 of the returned list are written while the batch is open *)")
+        out.append("Definition batch_end (batch_start batch_size n : Z) : Z := Z.min (batch_start + batch_size) n.")
+        out.append("(* from Filterbank.extract_chans: batch_chans = chans[batch_start:batch_end]; file ifile of the batch is filenames[batch_start + ifile]")
+        out.append("   and receives channel batch_chans[ifile] = chans[batch_start + ifile] *)")
+        out.append("Definition chans_batch_index (batch_start ifile : Z) : Z := batch_start + ifile.")
         out.append("(* from Filterbank.extract_chans: file for channel chan receives data.reshape(nsamps_r, nchans)[:, chan] *)")
         out.append("Definition chans_block (data : arr) (nchans nsamps_r chan : Z) : arr * Z := ((fun k => data (k * nchans + chan)), nsamps_r).\n")
         fn = method("extract_bands")
         plan_site(fn, "0", ("(nsamps_r, _ii, data)", "(nsamps_r, _, data)"))
         txt = ast.unparse(fn)
         for need in ("nsub = nchans // chanpersub", "data_2d = data.reshape(nsamps_r, self.header.nchans)",
-                     "iband_chanstart = chanstart + (batch_start + ifile) * chanpersub",
-                     "subband_ar = data_2d[:, iband_chanstart:iband_chanstart + chanpersub]", "out_file.cwrite(subband_ar.ravel())"):
+                     "subband_ar = data_2d[:, iband_chanstart:iband_chanstart + chanpersub]", "out_file.cwrite(subband_ar.ravel())",
+                     "filenames = [f'{outfile_base}_sub{isub:02d}.fil' for isub in range(nsub)]",
+                     "for batch_start in range(0, nsub, batch_size):", "batch_end = min(batch_start + batch_size, nsub)",
+                     "batch_files = filenames[batch_start:batch_end]", "for i, filename in enumerate(batch_files)]",
+                     "for ifile, out_file in enumerate(out_files):", "return filenames"):
             if need not in txt:
                 raise Unsupported("extract_bands: expected line not found: " + need)
+        # first channel of the band that file ifile of a batch receives: TRANSLATED (not template-matched), Proofs/C07_batches.v proves it
+        # is chanstart + (index of the file in the returned list) * chanpersub
+        c0s = [n_.value for n_ in ast.walk(fn) if isinstance(n_, ast.Assign) and len(n_.targets) == 1 and ast.unparse(n_.targets[0]) == "iband_chanstart"]
+        if len(c0s) != 1:
+            raise Unsupported("extract_bands: expected exactly one assignment to iband_chanstart")
+        free = {n_.id for n_ in ast.walk(c0s[0]) if isinstance(n_, ast.Name)}
+        if not free <= {"chanstart", "chanpersub", "batch_start", "ifile"}:
+            raise Unsupported("extract_bands: iband_chanstart depends on " + ", ".join(sorted(free)))
+        c0 = expr(c0s[0], Ctx(set()))
+        out.append("(* from Filterbank.extract_bands: first channel of the band written to file ifile of the batch starting at batch_start *)")
+        out.append(f"Definition bands_batch_c0 (chanstart chanpersub batch_start ifile : Z) : Z := {c0}.")
         out.append("(* from Filterbank.extract_bands: band iband receives data.reshape(nsamps_r, nchans)[:, c0:c0+chanpersub].ravel(), c0 = chanstart + iband*chanpersub *)")
         out.append("Definition bands_count (nchans_sel chanpersub : Z) : Z := nchans_sel / chanpersub.")
         out.append("Definition bands_block (data : arr) (nchans nsamps_r chanstart chanpersub iband : Z) : arr * Z :=\n"
